@@ -499,3 +499,18 @@ package abft
 //@   modifies s.cache.FrameRoots.items[*], s.cache.FrameRoots.weight, lel[s.cache.FrameRoots.evictList], llen[s.cache.FrameRoots.evictList], lidx[*], lown[*], nEvict, gEvictKey, gEvictVal, all(simplewlru.entry).value, all(simplewlru.entry).weight, s.epochDB, s.epochTable.Roots, s.epochTable.VectorIndex, s.epochTable.ConfirmedEvent
 //@   at call table.MigrateTables[1] modifies s.epochTable.Roots, s.epochTable.VectorIndex, s.epochTable.ConfirmedEvent
 //@   ensures  result == nil && lruinv(s.cache.FrameRoots) && len(s.cache.FrameRoots.items) == 0 && forall(f idx.Frame, !rcached(s, f))
+//@
+//@ // ---- the confirmed-events table against the REAL store (view "real"; callers use the model gConf) ----
+//@ // SetEventConfirmedOn writes the frame number as 4 big-endian bytes under the 32-byte event ID;
+//@ // GetEventConfirmedOn reads that record back (no record: 0) -- a frame number survives the round trip unchanged
+//@ viewfunc real (*Store).SetEventConfirmedOn
+//@   requires s != nil && s.crit != nil && s.epochTable.ConfirmedEvent != nil
+//@   modifies gKeyValueWriterPutN, gKeyValueWriterPutRecv, gKeyValueWriterPutA0, gKeyValueWriterPutA1, gKeyValueWriterPutR0, gWrOpN, gWrOpKind[*], gWrOpRecv[*], gWrOpKey[*], gWrOpVal[*], gWrOpErr[*]
+//@   ensures  gKeyValueWriterPutN == old(gKeyValueWriterPutN) + 1 && gKeyValueWriterPutRecv == s.epochTable.ConfirmedEvent && len(gKeyValueWriterPutA0) == 32 && forall(j, 0, 32, gKeyValueWriterPutA0[j] == e[j])
+//@   ensures  [value] len(gKeyValueWriterPutA1) == 4 && be32(gKeyValueWriterPutA1) == on
+//@ viewfunc real (*Store).GetEventConfirmedOn
+//@   requires s != nil && s.crit != nil && s.epochTable.ConfirmedEvent != nil && gValLen[s.epochTable.ConfirmedEvent] == 4
+//@   modifies gKeyValueReaderGetN, gKeyValueReaderGetRecv, gKeyValueReaderGetA0, gKeyValueReaderGetR0, gKeyValueReaderGetR1
+//@   ensures  gKeyValueReaderGetN == old(gKeyValueReaderGetN) + 1 && gKeyValueReaderGetRecv == s.epochTable.ConfirmedEvent && len(gKeyValueReaderGetA0) == 32 && forall(j, 0, 32, gKeyValueReaderGetA0[j] == e[j])
+//@   ensures  [absent] gKeyValueReaderGetR0 == nil ==> result == 0
+//@   ensures  [value] gKeyValueReaderGetR0 != nil ==> result == be32(gKeyValueReaderGetR0)
